@@ -128,17 +128,20 @@ def run_job(job):
             V("ServerRegistration::start is not deterministic", "%s vs %s" % (r1.msg, r2.msg))
         f1 = proto.register(s, rng, "S", b"pw1", b"id", wire=False, tag="f1")
         f2 = proto.register(s, rng, "S", b"pw2", b"id", wire=False, tag="f2")
-        for i in range(4 if tier == "quick" else 20):
+        for i in range(6 if tier == "quick" else 24):
             c = s.cmd("clogin_start", rng="b", pw=b"pw", out_state="q.cl", out_msg="q.cq")
             betas = {}
-            for lab, setup, fh in (("none", "S", None), ("R1", "S", "f1.file"), ("R2", "S", "f2.file"), ("none@otherkey", "S_otherkey", None), ("R1@otherkey", "S_otherkey", "f1.file")):
-                r = s.cmd("slogin_start", rng=rng, setup=setup, file=fh, req="q.cq", cred=b"id", out_state="q.sl", out_msg="q.cr")
+            cid = [b"id", b"", b"\x00", b" id\n", b"L" * 200][i % 5]
+            for lab, setup, fh, kw in (("none", "S", None, {}), ("R1", "S", "f1.file", {}), ("R2", "S", "f2.file", {}), ("none@otherkey", "S_otherkey", None, {}),
+                                       ("R1@otherkey", "S_otherkey", "f1.file", {}), ("R1+identities", "S", "f1.file", {"id_u": b"alice", "id_s": b"srv"}),
+                                       ("none+identities+ctx", "S", None, {"id_u": b"alice", "id_s": b"srv", "ctx": b"ctx"}), ("R2+client-id", "S", "f2.file", {"id_u": b"bob"})):
+                r = s.cmd("slogin_start", rng=rng, setup=setup, file=fh, req="q.cq", cred=cid, out_state="q.sl", out_msg="q.cr", **kw)
                 evals += 1
                 betas[lab] = r.msg[:2 * sz.noe] if r.ok else None
             s.de("rreq", bx(c.msg)[:sz.noe], out="q.rq")
-            rr = s.cmd("sreg_start", setup="S", req="q.rq", cred=b"id", out="q.rr")
+            rr = s.cmd("sreg_start", setup="S", req="q.rq", cred=cid, out="q.rr")
             betas["registration"] = rr.msg[:2 * sz.noe]
-            betas["model"] = m.oprf.G.encode_elem(m.oprf.blind_evaluate(m.oprf_key(seed_a, b"id"), m.oprf.G.decode_elem(bx(c.msg)[:sz.noe]))).hex()
+            betas["model"] = m.oprf.G.encode_elem(m.oprf.blind_evaluate(m.oprf_key(seed_a, cid), m.oprf.G.decode_elem(bx(c.msg)[:sz.noe]))).hex()
             stats["eval_determinism"] += 1
             if len(set(betas.values())) != 1:
                 V("evaluation of one request differs across records / static keys / paths", str(betas))
